@@ -434,6 +434,26 @@ func execute(s *engine.Script, o *engine.Outcome) {
 		}
 		tasks[tk] = append(tasks[tk], &taskCall{c: c})
 	}
+	// Every private instance the run will need is built now, before the
+	// package-state baseline is taken: parsers and constructors are not
+	// read-only operations and may legitimately fill package-level tables
+	// (an intern table, say).
+	ncalls := 0
+	for _, calls := range tasks {
+		ncalls += len(calls)
+	}
+	stock := make([]reflect.Value, 0, ncalls*9)
+	for i := 0; i < ncalls*9; i++ {
+		stock = append(stock, private2(vop))
+	}
+	private = func() reflect.Value {
+		if len(stock) == 0 {
+			return private2(vop)
+		}
+		v := stock[len(stock)-1]
+		stock = stock[:len(stock)-1]
+		return v
+	}
 	// Oracle 2 baseline for package-level state: taken before ANY read-only
 	// call of this run, including the solo executions below — a cache keyed by
 	// content would otherwise be warmed by the solo run and stay unchanged (and
